@@ -13,12 +13,12 @@ import (
 func init() {
 	register(&propDef{
 		id:      "C40",
-		explain: "Structural necessary conditions of 'LBClient routes to the least loaded client, bounds penalties and never panics': (R1) in the selection loop of LBClient.get the selected client and the keys recorded for it (its load and its completed-request total) are replaced together on every path of an iteration - a candidate recorded with the keys of another client makes later comparisons wrong; the selection condition depends on both keys; (E1) penalty pairing: incPenalty keeps one unit exactly when it returns true (it gives the unit back itself when the bound is exceeded, under a comparison with the bound), and the caller schedules exactly one decrement for every unit kept, on every path; (R3) get returns nil exactly when there is no client, every caller tests for nil and reports ErrNoAvailableClients, and no explicit panic is reachable through static calls from the Do* methods. (R4) every assignment of the candidate list LBClient.cs derives from the list's own previous content (append / filter / reslice), so the lazy initialisation cannot drop clients registered through AddClient before the first call. Not decided: optimality of the choice under concurrent updates, timing of the 3 s penalty expiry.",
+		explain: "Structural necessary conditions of 'LBClient routes to the least loaded client, bounds penalties and never panics': (R1) in the selection loop of LBClient.get the selected client and the keys recorded for it (its load and its completed-request total) are replaced together on every path of an iteration - a candidate recorded with the keys of another client makes later comparisons wrong; the selection condition depends on both keys; (E1) penalty pairing: incPenalty keeps one unit exactly when it returns true (it gives the unit back itself when the bound is exceeded, under a comparison with the bound), and the caller schedules exactly one decrement for every unit kept, on every path; (R3) get returns nil exactly when there is no client, every caller tests for nil and reports ErrNoAvailableClients, and no explicit panic is reachable through static calls from the Do* methods. (R4) every assignment of the candidate list LBClient.cs derives from the list's own previous content (append / filter / reslice), so the lazy initialisation cannot drop clients registered through AddClient before the first call. (E8) LBClient.cs is accessed under LBClient.mu only and its elements only through a header taken while the lock is held. Not decided: optimality of the choice under concurrent updates, timing of the 3 s penalty expiry.",
 		run:     runC40,
 	})
 	register(&propDef{
 		id:      "C41",
-		explain: "Structural necessary conditions of 'TCPDialer bounds concurrent dials and returns ErrDialTimeout by the deadline': (E1) the dial semaphore is paired: when a concurrency channel exists every path to the dial has acquired a slot (fast or waiting send) and the release is deferred exactly on those paths; the waiting acquisition is a select that includes a timer armed with the remaining time, and its timeout path returns ErrDialTimeout without holding a slot; (R2) the context that bounds the connect is built from the absolute deadline (or from a duration computed after the slot was acquired), so time spent waiting for a slot is not granted again; (R3) every ErrDialTimeout (and every other dial error) leaves tryDial wrapped with the upstream address; (R4) the rotation loop of dial advances the address index after every failed attempt, is counted from a constant (one attempt per resolved address wherever the rotation starts) and stops on ErrDialTimeout; (R5) a failed connect is classified as a timeout by the deadline itself, not only by the context's state. Not decided: real timing, resolver behaviour, the DNS cache (C37).",
+		explain: "Structural necessary conditions of 'TCPDialer bounds concurrent dials and returns ErrDialTimeout by the deadline': (E1) the dial semaphore is paired: when a concurrency channel exists every path to the dial has acquired a slot (fast or waiting send) and the release is deferred exactly on those paths; the waiting acquisition is a select that includes a timer armed with the remaining time, and its timeout path returns ErrDialTimeout without holding a slot; (R2) the context that bounds the connect is built from the absolute deadline (or from a duration computed after the slot was acquired), so time spent waiting for a slot is not granted again; (R3) every ErrDialTimeout (and every other dial error) leaves tryDial wrapped with the upstream address; (R4) the rotation loop of dial advances the address index after every failed attempt, is counted from a constant (one attempt per resolved address wherever the rotation starts) and stops on ErrDialTimeout; (R5) a failed connect is classified as a timeout by the deadline itself, not only by the context's state. (R6) every tryDial call in TCPDialer.dial is reached only after the once.Do whose body creates the concurrency channel, on every configuration branch; Not decided: real timing, resolver behaviour, the DNS cache (C37).",
 		run:     runC41,
 	})
 }
@@ -379,9 +379,65 @@ func runC40(p *Prog, r *Report) {
 		}
 		r.Floor("R4", "assignments of the LBClient candidate list", n, 3)
 	}
+	// E8: the candidate list is scanned under the lock that RemoveClients compacts it under: the list field is accessed
+	// under LBClient.mu only, and its elements only through a header taken while the lock is held - a header kept past
+	// the unlock reads slots that a concurrent removal has shifted or cleared (a nil client, a removed one)
+	checkLockset(p, r, "E8", &lockTable{
+		guards:      map[string]string{"LBClient.cs": "LBClient.mu"},
+		heldOnEntry: map[string][]string{},
+		exempt:      map[string]string{},
+	}, nil)
+}
+
+// semaphoreCreatedBeforeDial (C41.R6): the concurrency bound is a channel created lazily, once, from the
+// Concurrency field; tryDial skips the bound when the channel is nil. Every path of TCPDialer.dial to a tryDial
+// call therefore passes the once.Do that creates it - whatever configuration branch it took before.
+func semaphoreCreatedBeforeDial(p *Prog, r *Report) {
+	dial := p.Func("(*TCPDialer).dial")
+	try := p.Func("(*TCPDialer).tryDial")
+	if dial == nil || try == nil {
+		r.Undecided("R6", "(*TCPDialer).dial / tryDial", "not found")
+		return
+	}
+	isOnce := func(i ssa.Instruction) bool {
+		c, ok := i.(ssa.CallInstruction)
+		if !ok || c.Common().StaticCallee() == nil || c.Common().StaticCallee().Name() != "Do" || recvTypeName(c.Common().StaticCallee()) != "Once" {
+			return false
+		}
+		fa, ok := c.Common().Args[0].(*ssa.FieldAddr)
+		return ok && typeNameOf(fa.X) == "TCPDialer"
+	}
+	// the once body is what creates the channel
+	creates := false
+	for _, an := range dial.AnonFuncs {
+		for _, b := range an.Blocks {
+			for _, in := range b.Instrs {
+				if st, ok := in.(*ssa.Store); ok {
+					if _, fv := fieldOfAddr(st.Addr); fv != nil && fv.Name() == "concurrencyCh" {
+						creates = true
+					}
+				}
+			}
+		}
+	}
+	n := 0
+	for _, b := range dial.Blocks {
+		for _, in := range b.Instrs {
+			c, ok := in.(ssa.CallInstruction)
+			if !ok || c.Common().StaticCallee() != try {
+				continue
+			}
+			n++
+			hit, path := reachAvoiding(dial, nil, func(i ssa.Instruction) bool { return i == in }, isOnce, nil)
+			r.Check("R6", fmt.Sprintf("TCPDialer.dial: tryDial call #%d is reached only after the once.Do that creates the concurrency channel", n), hit == nil && creates, p.Pos(in.Pos()),
+				"a dial attempt is reachable without the lazy initialisation: the concurrency channel is still nil there and tryDial skips the bound, so with that configuration any number of dials run at once", blocksString(p, path)...)
+		}
+	}
+	r.Floor("R6", "tryDial calls in TCPDialer.dial", n, 2)
 }
 
 func runC41(p *Prog, r *Report) {
+	semaphoreCreatedBeforeDial(p, r)
 	fn := p.Func("(*TCPDialer).tryDial")
 	if fn == nil {
 		r.Undecided("E1", "(*TCPDialer).tryDial", "not found")
